@@ -225,6 +225,23 @@ class Facts:
                     seen.add(q)
                     todo += list(graph.get(q, ()))
         helpers = {p: fn for p, fn in helpers.items() if p not in recursive}
+        # a helper that is also handed around as a value (a callback) has to stay a function of its own
+        as_value = set()
+
+        def value_refs(n, in_call_f=False):
+            if isinstance(n, dict):
+                if n.get("k") == "Path" and n.get("res") == "Def" and not in_call_f:
+                    q = norm_path(n.get("path"))
+                    if q in helpers:
+                        as_value.add(q)
+                for k_, v in n.items():
+                    value_refs(v, in_call_f=(k_ == "f" and n.get("k") == "Call"))
+            elif isinstance(n, list):
+                for v in n:
+                    value_refs(v)
+        for fn_ in self.fns.values():
+            if fn_.get("body") is not None:
+                value_refs(fn_["body"])
         counter = [0]
 
         def rename(n, suffix):
@@ -261,6 +278,8 @@ class Facts:
                 continue
             fn["body"] = inline(fn["body"], 0)
         for p in helpers:
+            if p in as_value:
+                continue
             del self.fns[p]
             for c, data in self.crates.items():
                 data["fns"] = [f for f in data["fns"] if f.get("_path") != p]
